@@ -107,6 +107,12 @@ End C04.
 Theorem C04_chol_contract_satisfiable (F : rcfType) : chol_contract (@cholm F).
 Proof. exact: chol_contract_cholm. Qed.
 
+(* ... and it determines the factor: two oracles that meet it agree on every spd matrix, so the generated
+   definitions are functions of the kernel matrices alone *)
+Theorem C04_chol_factor_unique (F : rcfType) (c1 c2 : forall n : nat, 'M[F]_n -> 'M[F]_n) :
+  chol_contract c1 -> chol_contract c2 -> forall n (A : 'M[F]_n), spd A -> c1 n A = c2 n A.
+Proof. exact: chol_contract_unique. Qed.
+
 Print Assumptions C04_full_LLt.
 Print Assumptions C04_standard_LLt.
 Print Assumptions C04_full_nystroem_LLt.
@@ -114,3 +120,4 @@ Print Assumptions C04_modified_LLt.
 Print Assumptions C04_never_above_K_standard.
 Print Assumptions C04_never_above_K_full.
 Print Assumptions C04_chol_contract_satisfiable.
+Print Assumptions C04_chol_factor_unique.
